@@ -223,7 +223,8 @@ Proof. exact link_is_concat. Qed.
 Print Assumptions R_link_is_concat.
 
 (* ---- counts through later labels whose dependence on unknown sizes cancels (Model/AsmRel.v) ----------------
-   assemble_rel rewrites such .repeat counts to literals (constants over address polynomials, Model/Poly.v) and
+   assemble_rel rewrites such .repeat counts -- and a link base spelled through labels, `.link 1000 + e - s`, where
+   the base itself is one more unknown that has to cancel -- to literals (constants over address polynomials, Model/Poly.v) and
    hands the program to assemble.  R_rel_sound_partial: its answer IS an answer of assemble for the rewritten
    program p' -- so every theorem above applies to p' --, p' differs from the program only in the rewritten counts
    (R_rel_shape), and each rewritten count expression evaluates, by the Spec under the final symbol table, to the
@@ -235,7 +236,7 @@ Theorem R_rel_sound_partial : forall enc p f, assemble_rel_full enc p = XOk f ->
 Proof. exact rel_sound. Qed.
 Print Assumptions R_rel_sound_partial.
 
-Theorem R_rel_shape : forall enc p p' ch, resolve enc p = (p', ch) -> Forall2 (same_but_count ch) (cut_end p) p'.
+Theorem R_rel_shape : forall enc p p' ch, resolve enc p = (p', ch) -> Forall2 (same_but ch) (cut_end p) p'.
 Proof. exact resolve_shape. Qed.
 Print Assumptions R_rel_shape.
 
@@ -316,6 +317,12 @@ Example R_example_rel :
     XOk (512, [194; 21; 12; 2; 82; 20; 82; 20; 72; 17; 1; 10; 8; 2], [(KGlobal 0 "free", 524); (KGlobal 0 "code", 520)]) /\
   assemble_rel bk_enc [Label "s"; Repeat (Bin BSub (Sym "e") (Sym "s")) [Insn "nop" []]; Label "e"] = XUnsup "label-not-laid-out-yet".
 Proof. vm_compute. repeat split; reflexivity. Qed.
+
+Example R_example_rel_base :
+  assemble_rel bk_enc [Link (Bin BSub (Bin BAdd (num 512) (Sym "e")) (Sym "s")); Label "s"; Insn "nop" []; Insn "nop" []; Label "e"; Word [Sym "e"]] =
+  XOk (516, [160; 0; 160; 0; 8; 2], [(KGlobal 0 "e", 520); (KGlobal 0 "s", 516)]) /\
+  assemble_rel bk_enc [Link (Sym "e"); Label "e"] = XUnsup "label-not-laid-out-yet".
+Proof. vm_compute. split; reflexivity. Qed.
 
 Example R_example_supported :
   supported ex_program = true /\
